@@ -48,3 +48,12 @@ Print Assumptions C06_min.
 Theorem C06_max : forall f r, (f <= combine_scores 3 f r /\ r <= combine_scores 3 f r)%Q.
 Proof. exact combine_max. Qed.
 Print Assumptions C06_max.
+
+(* scores='both': rows come in (forward, reverse) pairs per query, queries in input order *)
+Theorem C06_both_layout_rows : forall (A : Type) (fw rv : list A) i, length fw = length rv ->
+  nth_error (both_layout fw rv) (2 * i) = nth_error fw i /\ nth_error (both_layout fw rv) (2 * i + 1) = nth_error rv i.
+Proof. intros A fw. exact (@both_layout_rows A fw). Qed.
+Print Assumptions C06_both_layout_rows.
+Theorem C06_both_layout_length : forall (A : Type) (fw rv : list A), length fw = length rv -> length (both_layout fw rv) = (2 * length fw)%nat.
+Proof. intros A. exact (@both_layout_length A). Qed.
+Print Assumptions C06_both_layout_length.
